@@ -24,6 +24,9 @@ type Case struct {
 	In  json.RawMessage `json:"in"`
 	Exp json.RawMessage `json:"exp,omitempty"`
 	Obs json.RawMessage `json:"obs,omitempty"`
+	// Drift holds protocol-level observations (which hashes were read, in
+	// what order, ...): a mismatch there is reported as DRIFT, not as a violation.
+	Drift json.RawMessage `json:"drift,omitempty"`
 }
 
 // Violation is something the real code did that the property forbids.
@@ -270,9 +273,22 @@ func Record(world, out string, seed int64, n int) (*Report, error) {
 	enc := json.NewEncoder(bw)
 	enc.SetEscapeHTML(false)
 	w.Record(rand.New(rand.NewSource(seed)), n, func(k string, in, obs any) {
-		ib, _ := json.Marshal(in)
-		ob, _ := json.Marshal(obs)
-		c := Case{W: world, K: k, In: ib, Obs: ob}
+		ib := marshalNoNull(in)
+		var db []byte
+		if m, ok := obs.(map[string]any); ok {
+			if d, ok := m["_drift"]; ok {
+				db = marshalNoNull(d)
+				m2 := map[string]any{}
+				for k, v := range m {
+					if k != "_drift" {
+						m2[k] = v
+					}
+				}
+				obs = m2
+			}
+		}
+		ob := marshalNoNull(obs)
+		c := Case{W: world, K: k, In: ib, Obs: ob, Drift: db}
 		if rep.Cases < 3 {
 			rep.Samples = append(rep.Samples, c)
 		}
@@ -311,4 +327,49 @@ func Diff(exp, obs map[string]any) []string {
 	}
 	sort.Strings(out)
 	return out
+}
+
+// marshalNoNull marshals v with every JSON null (nil slices) replaced by an
+// empty array: TLC's Json module has no null.
+func marshalNoNull(v any) []byte {
+	b, err := json.Marshal(v)
+	if err != nil {
+		panic(err)
+	}
+	if !bytesContains(b, "null") {
+		return b
+	}
+	var x any
+	if err := json.Unmarshal(b, &x); err != nil {
+		panic(err)
+	}
+	b, _ = json.Marshal(denull(x))
+	return b
+}
+
+func bytesContains(b []byte, s string) bool {
+	for i := 0; i+len(s) <= len(b); i++ {
+		if string(b[i:i+len(s)]) == s {
+			return true
+		}
+	}
+	return false
+}
+
+func denull(x any) any {
+	switch v := x.(type) {
+	case nil:
+		return []any{}
+	case []any:
+		for i := range v {
+			v[i] = denull(v[i])
+		}
+		return v
+	case map[string]any:
+		for k := range v {
+			v[k] = denull(v[k])
+		}
+		return v
+	}
+	return x
 }
